@@ -90,11 +90,18 @@ class JobWorld(World):
         self.clock = t
 
     def sleep(self, eng, d, sp):
+        # block_on sleeps (instead of selecting) only when it believes there is no I/O to wait for.  If a token is readable the
+        # whole time and the process keeps sleeping, it never makes progress: a livelock, reported as a hang
+        self.idle_sleeps = self.__dict__.get('idle_sleeps', 0) + 1
         self.ev('thread::sleep')
+        if self.idle_sleeps > 4 and self.P > 0:
+            raise Hang('thread::sleep %d times in a row without ever selecting on the token pipe, which holds %d token(s)' % (
+                self.idle_sleeps, self.P))
         self.advance(eng, d.f[0])
 
     # ---- syscalls
     def select(self, eng, rset, timeout, sp):
+        self.idle_sleeps = 0
         self.wakeups += 1
         if self.wakeups > self.max_wakeups:
             from mirsym.engine import BoundExceeded
